@@ -263,10 +263,12 @@ def check_type(sh, shape, rng, case):
           mech="hash-list-field-unhashable" if has(shape, "list") and "unhashable type: 'list'" in str(e) else None)
     prev = (o, exp)
     # copies
-    for how in ("clone", "deepcopy", "imatmul", "imatmul_bits", "ilshift"):
+    for how in ("clone", "deepcopy", "copy", "imatmul", "imatmul_bits", "ilshift"):
       src = B.val(shape, v)
       if how == "clone":
         dst = src.clone()
+      elif how == "copy":
+        dst = copy.copy(src)          # the copy module's shallow protocol: for a value type it has to be a copy all the same
       elif how == "deepcopy":
         dst = copy.deepcopy(src)
       elif how == "imatmul":
@@ -523,6 +525,30 @@ def check_array_decl(sh, rng, case):
       sh.violation("to_bits-layout", {"dims": dims, "int_list_argument": True, "got": hex(int(o.to_bits().uint())), "expected": hex(exp)}, case=("arr", case))
   except Exception as e:
     sh.violation("list-field-argument-of-ints-not-usable", {"dims": dims, "error": f"{type(e).__name__}: {str(e)[:120]}"}, case=("arr", case))
+  # a list argument of another length than the field: refused, or the value still round-trips through the packed form
+  longer = copy.deepcopy(vals); longer.append(copy.deepcopy(longer[0]))
+  sh.count("list_args_of_wrong_length")
+  try:
+    o2 = cls(1, longer)
+  except Exception:
+    sh.count("list_args_of_wrong_length_refused")
+  else:
+    try: same = (cls.from_bits(o2.to_bits()) == o2)
+    except Exception: same = False
+    if not same:
+      sh.violation("constructor-accepts-a-list-of-the-wrong-length-and-the-value-does-not-round-trip", {"dims": dims, "given_outer_length": len(longer)}, case=("arr", case))
+  # field names that are also names of generated methods: refused at declaration, or the methods still work
+  nm = rng.choice(["clone", "_flip", "get_field_type", "to_bits", "from_bits", "nbits"])
+  sh.count("method_named_fields")
+  try:
+    cls3 = mk_bitstruct(f"ArrM_{sh.idx}_{case}", {"hd": mk_bits(2), nm: mk_bits(4)})
+  except Exception:
+    sh.count("method_named_fields_refused")
+  else:
+    try:
+      o3 = cls3(); o4 = o3.clone(); o3 <<= o4; o3._flip(); cls3.get_field_type("hd"); copy.deepcopy(o3); o3.to_bits(); cls3.from_bits(o3.to_bits()); cls3.nbits
+    except Exception as e:
+      sh.violation("field-named-like-a-generated-method-breaks-that-method", {"field": nm, "error": f"{type(e).__name__}: {str(e)[:100]}"}, case=("arr", case))
 
 
 def _flat(x):
